@@ -1,8 +1,11 @@
 import GmQuic.Model.Frame
 /-!
-`put_frame(ConnectionCloseFrame)` into a BOUNDED buffer (`remaining_mut() = rem`): the Rust truncates
-the reason to `reason.len().min(self.remaining_mut())` *after* writing type and codes but *before*
-writing the length varint.  `bytes::BufMut` panics when a `put_*` does not fit.
+`put_frame(ConnectionCloseFrame)` into a BOUNDED buffer (`remaining_mut() = rem`): after writing type and
+codes the Rust truncates the reason to
+`reason.len().min(self.remaining_mut().saturating_sub(len_size))` with
+`len_size = VarInt::from_u32(reason.len() as u32).encoding_size()` (room is kept for the length varint that is
+written next: fix-C05-close-truncation; before the fix it was `reason.len().min(self.remaining_mut())` and the
+truncation path always panicked).  `bytes::BufMut` panics when a `put_*` does not fit.
 -/
 namespace GmQuic.Codec
 open GmQuic.Wire GmQuic.Gen
@@ -24,7 +27,8 @@ def encCloseBounded (rem : Nat) (f : Frame) : Res Unit :=
   if rem < head.length then .panic "BufMut::put_*: advance out of bounds (type / codes)" else
   let r1 := rem - head.length
   let reason := closeReason f
-  let len := min reason.length r1
+  let lenSize := varintSize (reason.length % 2 ^ 32)       -- `VarInt::from_u32(reason.len() as u32).encoding_size()`
+  let len := min reason.length (r1 - lenSize)              -- `remaining_mut().saturating_sub(len_size)`
   let lenb := encVarint (len % 2 ^ 32)
   if r1 < lenb.length + len then .panic "BufMut::put_slice: advance out of bounds (length + reason)"
   else .ok () (head ++ (lenb ++ reason.take len))
